@@ -235,7 +235,20 @@ func c14Case(c *core.C) {
 	if !c14Pair(c, a, b, kind, mutPath) {
 		return
 	}
-	c14Pair(c, b, a, kind+"(reversed)", mutPath)
+	if !c14Pair(c, b, a, kind+"(reversed)", mutPath) {
+		return
+	}
+	if c.K%4 == 0 {
+		// the same node values are diffed again after one of them was changed in place: the answer must describe
+		// the nodes as they are now
+		mu := c13NodeMuts[r.Intn(len(c13NodeMuts))]
+		if gen.Apply(r, a.ProtoReflect(), mu, 1, o) {
+			c.Cover("diffed-again-after-in-place-change")
+			if c14Pair(c, a, b, kind+"(after changing the first node in place)", mu.String()) {
+				c14Pair(c, b, a, kind+"(after changing the second node in place)", mu.String())
+			}
+		}
+	}
 }
 
 func c14Pair(c *core.C, a, b *sbom.Node, kind, mutPath string) bool {
